@@ -1,7 +1,7 @@
 use crate::transport::types::{EntityId, SequenceNumber};
 
 use super::super::{
-    error::RtpsMessageResult,
+    error::{RtpsMessageError, RtpsMessageResult},
     overall_structure::{
         Submessage, SubmessageHeaderRead, SubmessageHeaderWrite, TryReadFromBytes, Write,
         WriteIntoBytes,
@@ -25,10 +25,17 @@ impl NackFragSubmessage {
         mut data: &[u8],
     ) -> RtpsMessageResult<Self> {
         let endianness = submessage_header.endianness();
+        let reader_id = EntityId::try_read_from_bytes(&mut data, endianness)?;
+        let writer_id = EntityId::try_read_from_bytes(&mut data, endianness)?;
+        let writer_sn = SequenceNumber::try_read_from_bytes(&mut data, endianness)?;
+        // RTPS 8.3.7.10.3 Validity; the last number cannot be followed by another change
+        if writer_sn <= 0 || writer_sn == SequenceNumber::MAX {
+            return Err(RtpsMessageError::InvalidData);
+        }
         Ok(Self {
-            reader_id: EntityId::try_read_from_bytes(&mut data, endianness)?,
-            writer_id: EntityId::try_read_from_bytes(&mut data, endianness)?,
-            writer_sn: SequenceNumber::try_read_from_bytes(&mut data, endianness)?,
+            reader_id,
+            writer_id,
+            writer_sn,
             fragment_number_state: FragmentNumberSet::try_read_from_bytes(&mut data, endianness)?,
             count: Count::try_read_from_bytes(&mut data, endianness)?,
         })
